@@ -666,13 +666,14 @@ Section Exec.
 
   Lemma run_restores (main : stmt) n0 fuel st :
     let r := vm_exec fuel tbl (emit_stmt ord inl P false main) n0 0%Z st in
-    (fst r = ONormal -> v_depth (snd r) = v_depth st) /\
+    (fst r = ONormal \/ fst r = OBrk \/ fst r = OCont \/ fst r = ORet -> v_depth (snd r) = v_depth st) /\
     (fst r = OErr -> v_depth st <= v_depth (snd r)) /\
     fst r <> OUnder.
   Proof.
     cbv zeta. pose proof (proj2 (inv_all fuel) false main n0 0%Z st ltac:(cbn; lia)) as H.
     unfold stmt_post in H. destruct (vm_exec fuel tbl (emit_stmt ord inl P false main) n0 0%Z st) as [o st']; cbn [fst snd bn] in *.
-    destruct o; try contradiction; repeat split; intros; try discriminate; lia.
+    destruct o; try contradiction; repeat split; intros; try discriminate; try lia;
+      try (destruct H0 as [?|[?|[?|?]]]; discriminate).
   Qed.
 End Exec.
 
@@ -681,13 +682,8 @@ Lemma run_vm_raw_restores ord inl P n0 d0 : ord <> RetNoExit ->
   (fst r = ONormal \/ fst r = OBrk \/ fst r = OCont \/ fst r = ORet -> v_depth (snd r) = d0) /\
   (fst r = OErr -> d0 <= v_depth (snd r)) /\ fst r <> OUnder.
 Proof.
-  intro Hord. unfold run_vm_raw. cbv zeta.
-  pose proof (proj2 (inv_all ord inl (p_fns P) Hord FUEL) false (p_main P) n0 0%Z (ndefs_state d0 (p_ndefs P)) ltac:(cbn; lia)) as H.
-  unfold stmt_post in H.
-  destruct (vm_exec FUEL (emit_tbl ord inl (p_fns P)) (emit_stmt ord inl (p_fns P) false (p_main P)) n0 0%Z (ndefs_state d0 (p_ndefs P))) as [o st'].
-  cbn [fst snd bn ndefs_state v_depth] in *.
-  destruct o; try contradiction; repeat split; intros; try discriminate; try lia;
-    try (destruct H0 as [?|[?|[?|?]]]; discriminate); try congruence.
+  intro Hord. unfold run_vm_raw.
+  exact (run_restores ord inl (p_fns P) Hord (p_main P) n0 FUEL (ndefs_state d0 (p_ndefs P))).
 Qed.
 
 (* with the restore step of run_fast: every run that does not run out of model fuel -- Ok or Err --
@@ -725,6 +721,166 @@ Proof.
   intros Hord Hres. unfold session. apply session_with_ok.
   intros P n0 d. exact (proj1 (run_vm_restores ord inl P n0 d Hord Hres)).
 Qed.
+
+(* ------------------------------------------------------------------ while a @no_gc function is on the stack, every
+   safepoint is reached at depth > 0 (repaired emission order), through any nesting of calls *)
+Definition allpos (a b : vst) : Prop := v_safes b + v_pos a = v_pos b + v_safes a.
+Lemma allpos_refl a : allpos a a. Proof. unfold allpos; lia. Qed.
+Lemma allpos_trans a b c : allpos a b -> allpos b c -> allpos a c. Proof. unfold allpos; lia. Qed.
+Lemma allpos_depth a d : allpos a (set_depth a d). Proof. unfold allpos, set_depth; cbn; lia. Qed.
+Lemma allpos_safe a : 0 < v_depth a -> allpos a (safepoint a).
+Proof. intro H. unfold allpos, safepoint, is_in_no_gc. destruct (0 <? v_depth a) eqn:E; cbn; lia. Qed.
+
+Lemma exec_exit_ret_allpos fuel tbl g n i st : allpos st (snd (vm_exec fuel tbl (KSeq (kflag g KExit) KRet) n i st)).
+Proof.
+  destruct fuel as [|f]; [apply allpos_refl|]. rewrite exec_seq.
+  destruct f as [|f']; [destruct g; apply allpos_refl|].
+  destruct g; cbn [kflag vm_exec].
+  - destruct (op_exit (v_depth st)); [|apply allpos_refl].
+    destruct f'; cbn [vm_exec snd]; apply allpos_depth.
+  - destruct f'; cbn [vm_exec snd]; apply allpos_refl.
+Qed.
+
+Section Region.
+  Variable inl : bool.
+  Variable P : list fn.
+  Let ord := RetExitAfterExpr.
+  Let tbl := emit_tbl ord inl P.
+  Let Hord : ord <> RetNoExit. Proof. discriminate. Qed.
+
+  Definition PosA (fuel : nat) : Prop :=
+    forall inl' e n i st, 0 < v_depth st -> allpos st (snd (vm_exec fuel tbl (emit_expr inl' P e) n i st)).
+  Definition PosB (fuel : nat) : Prop :=
+    forall g s n i st, 0 < v_depth st -> allpos st (snd (vm_exec fuel tbl (emit_stmt ord inl P g s) n i st)).
+
+  Lemma expr0_allpos fuel : forall e n i st, no_calls e = true -> 0 < v_depth st ->
+    allpos st (snd (vm_exec fuel tbl (emit_expr0 e) n i st)).
+  Proof.
+    induction fuel as [|f IH]; intros e n i st Hn Hd; [apply allpos_refl|].
+    destruct e; cbn [emit_expr0 no_calls] in *; try discriminate; cbn [vm_exec snd]; try apply allpos_refl.
+    - apply allpos_safe; assumption.
+    - apply andb_true_iff in Hn as [Ha Hb]. fold (emit_expr0 e1) (emit_expr0 e2).
+      pose proof (IH e1 n i st Ha Hd) as H1.
+      pose proof (emit_expr0_nocalls f tbl e1 n i st Ha) as D1. unfold expr_post in D1.
+      destruct (vm_exec f tbl (emit_expr0 e1) n i st) as [o1 st1]; cbn [fst snd] in *.
+      destruct o1; try exact H1.
+      eapply allpos_trans; [exact H1|]. apply IH; [assumption | lia].
+  Qed.
+
+  Lemma fn_allpos fuel : (forall f', (f' < fuel)%nat -> PosB f') ->
+    forall fd n i st, f_nogc fd = true \/ 0 < v_depth st ->
+    allpos st (snd (vm_exec fuel tbl (emit_fn ord inl P fd) n i st)).
+  Proof.
+    intros IH fd n i st Hpre. unfold emit_fn. set (g := f_nogc fd) in *.
+    destruct fuel as [|f1]; [apply allpos_refl|]. rewrite exec_seq.
+    assert (E : (exists st1, vm_exec f1 tbl (kflag g KEnter) n i st = (ONormal, st1) /\ allpos st st1 /\ 0 < v_depth st1 /\ bn g <= v_depth st1)
+                \/ vm_exec f1 tbl (kflag g KEnter) n i st = (OFuel, st)).
+    { destruct f1; [right; reflexivity|]. left. destruct g eqn:Eg; cbn [kflag vm_exec].
+      - eexists; split; [reflexivity|]. split; [apply allpos_depth|]. unfold set_depth, op_enter; cbn [v_depth bn]. lia.
+      - eexists; split; [reflexivity|]. split; [apply allpos_refl|]. cbn [bn]. destruct Hpre as [H|H]; [discriminate | lia]. }
+    destruct E as [(st1 & -> & A1 & D1 & B1)| ->]; [|apply allpos_refl].
+    destruct f1 as [|f2]; [exact A1|]. rewrite exec_seq.
+    pose proof (IH f2 ltac:(lia) g (f_body fd) n i st1 D1) as HB.
+    pose proof (proj2 (inv_all ord inl P Hord f2) g (f_body fd) n i st1 B1) as HD. unfold stmt_post in HD.
+    fold tbl in HD.
+    destruct (vm_exec f2 tbl (emit_stmt ord inl P g (f_body fd)) n i st1) as [o2 st2]; cbn [fst snd] in *.
+    destruct o2; try (eapply allpos_trans; [exact A1 | exact HB]).
+    eapply allpos_trans; [exact A1|]. eapply allpos_trans; [exact HB|]. apply exec_exit_ret_allpos.
+  Qed.
+
+  Lemma posA_step f : (forall f', (f' < S f)%nat -> PosA f' /\ PosB f') -> PosA (S f).
+  Proof.
+    intros IH inl' e n i st Hd. destruct e; cbn [emit_expr].
+    - apply allpos_refl.
+    - cbn [vm_exec snd]. apply allpos_safe; assumption.
+    - apply allpos_refl.
+    - destruct (if inl' then inline_of P f0 else None) as [c|] eqn:Ei.
+      + destruct inl'; [|discriminate]. unfold inline_of, inline_of_gen in Ei.
+        destruct (nth_error P f0) as [fd|]; [|discriminate].
+        destruct (f_leaf fd && negb (inliner_skips_no_gc && f_nogc fd)); [|discriminate].
+        destruct (inline_body (f_body fd)) as [e'|] eqn:Eb; [|discriminate].
+        cbn [option_map] in Ei. inversion Ei; subst.
+        apply expr0_allpos; [eapply inline_body_nocalls; eassumption | assumption].
+      + cbn [vm_exec]. destruct (nth_error tbl f0) as [cg|] eqn:En; [|apply allpos_refl].
+        destruct (tbl_lookup ord inl P _ _ En) as [fd ->].
+        pose proof (fn_allpos f (fun f' H => proj2 (IH f' ltac:(lia))) fd (n - 1)%Z 0%Z st (or_intror Hd)) as HF.
+        destruct (vm_exec f tbl (emit_fn ord inl P fd) (n - 1)%Z 0%Z st) as [o1 st1]. cbn [snd] in HF.
+        destruct o1; exact HF.
+    - rewrite exec_seq.
+      pose proof (proj1 (IH f ltac:(lia)) inl' e1 n i st Hd) as H1.
+      pose proof (proj1 (inv_all ord inl P Hord f) inl' e1 n i st) as D1. unfold expr_post in D1. fold tbl in D1.
+      destruct (vm_exec f tbl (emit_expr inl' P e1) n i st) as [o1 st1]; cbn [fst snd] in *.
+      destruct o1; try exact H1.
+      eapply allpos_trans; [exact H1|]. apply (proj1 (IH f ltac:(lia))). lia.
+  Qed.
+
+  Lemma posB_step f : (forall f', (f' < S f)%nat -> PosA f' /\ PosB f') -> PosA (S f) -> PosB (S f).
+  Proof.
+    intros IH HA g s n i st Hd. destruct s; cbn [emit_stmt].
+    - apply allpos_refl.
+    - rewrite exec_seq.
+      pose proof (proj2 (IH f ltac:(lia)) g s1 n i st Hd) as H1.
+      destruct (vm_exec f tbl (emit_stmt ord inl P g s1) n i st) as [o1 st1] eqn:E1; cbn [snd] in *.
+      destruct o1; try exact H1.
+      (* the depth after a statement that completed normally is the depth before it, hence still > 0 *)
+      destruct (N.eq_dec (v_depth st1) 0) as [Z0|NZ].
+      + eapply allpos_trans; [exact H1|]. exfalso.
+        destruct g.
+        * (* g = true *) destruct (N.le_gt_cases (bn true) (v_depth st)) as [Hle|Hgt]; [|cbn [bn] in Hgt; lia].
+          pose proof (proj2 (inv_all ord inl P Hord f) true s1 n i st Hle) as HD. unfold stmt_post in HD. fold tbl in HD.
+          rewrite E1 in HD. cbn [fst snd] in HD. lia.
+        * pose proof (proj2 (inv_all ord inl P Hord f) false s1 n i st ltac:(cbn [bn]; lia)) as HD. unfold stmt_post in HD. fold tbl in HD.
+          rewrite E1 in HD. cbn [fst snd] in HD. lia.
+      + eapply allpos_trans; [exact H1|]. apply (proj2 (IH f ltac:(lia))). lia.
+    - apply HA; assumption.
+    - cbn [vm_exec]. destruct (ceval c n i); apply (proj2 (IH f ltac:(lia))); assumption.
+    - cbn [vm_exec]. destruct (j <? k); [|apply allpos_refl].
+      pose proof (proj2 (IH f ltac:(lia)) g s n (Z.of_N j) st Hd) as H1.
+      assert (Hle : bn g <= v_depth st) by (destruct g; cbn [bn]; lia).
+      pose proof (proj2 (inv_all ord inl P Hord f) g s n (Z.of_N j) st Hle) as HD. unfold stmt_post in HD. fold tbl in HD.
+      destruct (vm_exec f tbl (emit_stmt ord inl P g s) n (Z.of_N j) st) as [o1 st1]; cbn [fst snd] in *.
+      destruct o1; try exact H1.
+      + eapply allpos_trans; [exact H1|].
+        pose proof (proj2 (IH f ltac:(lia)) g (SLoop (j + 1) k s) n i st1 ltac:(lia)) as H2. cbn [emit_stmt] in H2. exact H2.
+      + eapply allpos_trans; [exact H1|].
+        pose proof (proj2 (IH f ltac:(lia)) g (SLoop (j + 1) k s) n i st1 ltac:(lia)) as H2. cbn [emit_stmt] in H2. exact H2.
+    - apply allpos_refl.
+    - apply allpos_refl.
+    - (* return: the expression first (inside the region), then ExitNoGc; Return *)
+      unfold ord at 1. cbn [ret_code]. rewrite exec_seq.
+      pose proof (proj1 (IH f ltac:(lia)) inl e n i st Hd) as H1.
+      destruct (vm_exec f tbl (emit_expr inl P e) n i st) as [o1 st1]; cbn [snd] in *.
+      destruct o1; try exact H1.
+      eapply allpos_trans; [exact H1 | apply exec_exit_ret_allpos].
+    - cbn [vm_exec snd]. apply allpos_safe; assumption.
+  Qed.
+
+  Lemma pos_all fuel : PosA fuel /\ PosB fuel.
+  Proof.
+    induction fuel as [fuel IH] using (well_founded_induction lt_wf).
+    destruct fuel as [|f].
+    - split; [intros inl' e n i st _ | intros g s n i st _]; apply allpos_refl.
+    - assert (HA : PosA (S f)) by (apply posA_step; exact IH).
+      split; [exact HA | apply posB_step; assumption].
+  Qed.
+
+  Lemma nogc_call_allpos fuel g fd n i st : nth_error P g = Some fd -> f_nogc fd = true ->
+    allpos st (snd (vm_exec fuel tbl (KCall g) n i st)).
+  Proof.
+    intros Hn Hg. destruct fuel as [|f]; [apply allpos_refl|]. cbn [vm_exec].
+    assert (En : nth_error tbl g = Some (emit_fn ord inl P fd)).
+    { unfold tbl, emit_tbl. rewrite nth_error_map, Hn. reflexivity. }
+    rewrite En.
+    pose proof (fn_allpos f (fun f' _ => proj2 (pos_all f')) fd (n - 1)%Z 0%Z st (or_introl Hg)) as HF.
+    destruct (vm_exec f tbl (emit_fn ord inl P fd) (n - 1)%Z 0%Z st) as [o1 st1]. cbn [snd] in HF.
+    destruct o1; exact HF.
+  Qed.
+End Region.
+
+Lemma nogc_call_never_at_depth0 inl P fuel g fd n i st : nth_error P g = Some fd -> f_nogc fd = true ->
+  let r := vm_exec fuel (emit_tbl return_exit_order inl P) (KCall g) n i st in
+  v_safes (snd r) + v_pos st = v_pos (snd r) + v_safes st.
+Proof. intros Hn Hg. exact (nogc_call_allpos inl P fuel g fd n i st Hn Hg). Qed.
 
 (* no @no_gc function anywhere: nothing ever changes the depth, whatever the outcome *)
 Fixpoint noee (c : code) : bool :=
